@@ -313,18 +313,41 @@ def r6(ctx):
 def r7(ctx):
     ctx.rule('C17.R7', 'a message that a condition depends on is polled: SimpleCondition::resolve gives the referenced message the '
              'condition priority (setUsedByCondition) and puts it into the poll queue (addPollMessage) on every path on which '
-             'it is a named, non-scan message; a message with a priority that is not queued is never selected', minimum=1)
+             'it is a named, non-scan message, and the priority is set before the message is queued (the queue ignores a message '
+             'without priority); a message with a priority that is not queued is never selected', minimum=2)
     fb = ctx.fb
-    fn = fb.fn('ebusd::SimpleCondition::resolve')
+    res = fb.fn('ebusd::SimpleCondition::resolve')
+    ctx.touch(res)
+    # the two calls may have been moved into a helper that resolve() calls (extract function)
+    cands = [res] + [g for g in fb.functions if g.blocks and g.relfile.startswith('src/lib/ebus/message.') and
+                     g.name in set(res.nodes[c].get('callee') for c in res.all('CallExpr', 'CXXMemberCallExpr') if res.nodes[c].get('repo'))]
+    fn = None
+    for g in cands:
+        if any((g.nodes[c].get('callee') or '').endswith('::setUsedByCondition') for c in g.all('CXXMemberCallExpr')) and \
+                any((g.nodes[c].get('callee') or '').endswith('::addPollMessage') for c in g.all('CXXMemberCallExpr')):
+            fn = g
+            break
+    if fn is None:
+        raise AnalysisBroken('C17.R7: setUsedByCondition / addPollMessage not found in SimpleCondition::resolve or a helper it calls')
     ctx.touch(fn)
     used = [c for c in fn.all('CXXMemberCallExpr') if (fn.nodes[c].get('callee') or '').endswith('::setUsedByCondition')]
     adds = set(c for c in fn.all('CXXMemberCallExpr') if (fn.nodes[c].get('callee') or '').endswith('::addPollMessage'))
-    if not used or not adds:
-        raise AnalysisBroken('C17.R7: setUsedByCondition / addPollMessage not found in SimpleCondition::resolve')
+    # addPollMessage ignores a message without priority, and setUsedByCondition is what gives a message without own priority
+    # one: the priority is set first on every path
+    for a in sorted(adds):
+        m = fn.key(fn.nodes[a]['args'][1])
+        mine = set(u for u in used if fn.key(fn.nodes[u]['obj']) == m)
+        early = fn.reaches_point(fn.entry, fn.pos(a), mine)
+        ctx.ob('C17.R7', fn, a, bool(mine) and not early, 'queueing of a message used by a condition',
+               'reached only behind setUsedByCondition(): %s' % (bool(mine) and not early))
     for u in used:
         m = fn.key(fn.nodes[u]['obj'])
         cut = list(fn.edges_with_atom('%s.isScanMessage()' % m, True))
         cut += list(fn.edges_with_atom('(this.m_name.length() <= #0)', True)) + list(fn.edges_with_atom('this.m_name.empty()', True))
+        # in a helper the "named message" test arrives as a bool parameter
+        for prm in fn.params:
+            if (prm.get('t') or '') in ('bool', 'const bool'):
+                cut += list(fn.edges_with_atom(prm['name'], False))
         pu = fn.pos(u)
         skipped = fn.reaches_point(pu[0], (fn.exit, 0), adds, start_idx=pu[1] + 1, cut_edges=cut)
         ctx.ob('C17.R7', fn, u, not skipped, 'message used by a condition', 'queued for polling on every path for a named non-scan message: %s' % (not skipped))
